@@ -184,6 +184,27 @@ func TestC15(t *testing.T) {
 			}
 		}
 	}
+	// a fallback among a group's nested steps: the entry is a group step or (as the library does
+	// today, because GroupStep wraps the nested warning in a plain error) an unknown step holding the
+	// whole group - never another kind - and the fallback is reported
+	for _, doc := range []string{
+		"steps:\n  - group: g\n    steps:\n      - mystery: 1\n",
+		"steps:\n  - type: group\n    group: g\n    trigger: t\n    steps:\n      - command: c\n      - type: nope\n",
+		"steps:\n  - group: g\n    steps:\n      - group: inner\n        steps: [shrug]\n",
+	} {
+		p, err := pipeline.Parse(strings.NewReader(doc))
+		cases++
+		if p == nil || len(p.Steps) != 1 {
+			fail("nested fallback: %v\n%s", err, doc)
+			continue
+		}
+		if got := fmt.Sprintf("%T", p.Steps[0]); got != "*pipeline.GroupStep" && got != "*pipeline.UnknownStep" {
+			fail("nested fallback: got %s, the rule table says a group step (or an unknown step)\n%s", got, doc)
+		}
+		if !warning.Is(err) {
+			fail("nested fallback: no warning (err = %v)\n%s", err, doc)
+		}
+	}
 	// scalar steps
 	for s, want := range map[string]string{"wait": "*pipeline.WaitStep", "waiter": "*pipeline.WaitStep", "block": "*pipeline.InputStep", "input": "*pipeline.InputStep", "manual": "*pipeline.InputStep", "command": "*pipeline.UnknownStep", "Wait": "*pipeline.UnknownStep", "trigger": "*pipeline.UnknownStep"} {
 		p, err := pipeline.Parse(strings.NewReader("steps:\n  - " + s + "\n"))
